@@ -136,6 +136,12 @@ func (t *Transaction) With(name string, readOnly bool, createFn func() (Cachable
 	 * with common enemies including concurrent read-writes to maps and scrapped
 	 * caches. */
 	// ---------------------------
+	// A writer takes the transaction lock before the manager lock (the order Commit
+	// uses) and keeps it until the cache is registered in writtenCaches. The manager
+	// lock is then never held while waiting for another lock.
+	if !readOnly {
+		t.mu.Lock()
+	}
 	// We start with manager lock so others don't try to create the same cache
 	verifYield("With.mgrLock")
 	t.manager.mu.Lock()
@@ -205,7 +211,6 @@ func (t *Transaction) With(name string, readOnly bool, createFn func() (Cachable
 			 * of bbolt (recall bbolt only allows one read-write transaction at a
 			 * time) which is absolutely fine for a search heavy workload. */
 			verifYield("With.xTxLock")
-			t.mu.Lock()
 			/* Have we locked this cache before? Within a transaction we hold
 			 * onto writes until we know the transaction is committed. This is
 			 * to ensure other readers or writers do not see partial results.
@@ -275,6 +280,9 @@ func (t *Transaction) With(name string, readOnly bool, createFn func() (Cachable
 		t.failed.Store(true)
 		verifYield("With.nFailMgrUnlock")
 		t.manager.mu.Unlock()
+		if !readOnly {
+			t.mu.Unlock()
+		}
 		return fmt.Errorf("error while creating fresh cache: %w", err)
 	}
 	s := &sharedCacheElem{
@@ -297,7 +305,6 @@ func (t *Transaction) With(name string, readOnly bool, createFn func() (Cachable
 		verifYield("With.nObjLock")
 		s.mu.Lock()
 		verifYield("With.nTxLock")
-		t.mu.Lock()
 		verifYield("With.nRegister")
 		t.writtenCaches[name] = s
 		verifYield("With.nTxUnlock")
